@@ -55,7 +55,9 @@ def sc_asl(src, opts=(), name="a", extra_disk=None, **kw):
         disk.update(extra_disk)
     env = {"LANG": "C", "ASL_VERIF_MAX_LINES": str(LINE_BUDGET)}
     env.update(kw.pop("env", {}))
-    sc = dict(argv=["-q", "-i", "/sim/inc"] + list(opts) + ["%s.asm" % name], cwd="/w", disk=disk, env=env)
+    # diagnostics go to an unbuffered stream: one event per line.  The event budget must cover the largest legitimate
+    # output (REPT 70000 x 6 erroneous statements), so that only genuinely endless runs hit it.
+    sc = dict(argv=["-q", "-i", "/sim/inc"] + list(opts) + ["%s.asm" % name], cwd="/w", disk=disk, env=env, max_events=1400000, cpu=60)
     sc.update(kw)
     return sc
 
